@@ -14,7 +14,8 @@ RULE = ("twin execution: the same edit history (generator of C06, biased to dele
         "implementation and with the model. Non-trivial = history with a removal, an import toggle or a close; distinct "
         "by (mutation sequence, closes). Plus eviction cases: the workspace followed by 2060 filler modules (file_cache "
         "exceeds MAX_FILE_CACHE_SIZE, a hash-ordered quarter is evicted — the evicted set is reported by the harness and "
-        "given to the model, for which eviction is closeFile on that set) against the same workspace without pressure")
+        "given to the model, for which eviction is closeFile on that set) against the same workspace without pressure. "
+        "Plus import-graph workspaces asked about (available, imported, resolve) BEFORE the workspace scan, against the scan alone")
 
 
 def warm_queries(cases, paths, rng):
@@ -192,6 +193,35 @@ def run(tier, seed):
             cases.q("cycles"); cases.q("unused")
             count = cases.idx + 1 - starts[mode]
         pairs.append(("e%de" % e, starts["evict"], "e%dc" % e, starts["cold"], count, ["eviction under pressure (2060 filler files)"]))
+    # queries answered BEFORE the workspace scan (a completion request while the server is still starting): they
+    # read files from disk; the scan that follows must index the workspace as if nobody had asked
+    from . import c14
+    nq = 6 if tier == "quick" else 60
+    for qn in range(nq):
+        rng = r.rng
+        files, mods, tests = c14.gen_imports(rng)
+        paths = sorted(files)
+        starts = {}
+        for mode in ("early", "cold"):
+            name = "q%d%s" % (qn, mode[0])
+            cases.case(name, {"mode": mode})
+            for k, p in enumerate(paths):
+                cases.text("f%d" % k, files[p]); cases.raw("disk %s f%d" % (p, k))
+            if mode == "early":
+                qs = list(paths); rng.shuffle(qs)
+                for p in qs[:4]:
+                    cases.q("avail", p); cases.q("imported", p)
+                    cases.q("resolve", p, mods[0]["fixture"] if mods else "foo")
+            cases.op("scan")
+            starts[mode] = cases.idx + 1
+            for p in paths:
+                cases.q("avail", p); cases.q("imported", p); cases.q("defs", p)
+                for m in mods:
+                    cases.q("resolve", p, m["fixture"])
+            cases.q("unused")
+            count = cases.idx + 1 - starts[mode]
+        pairs.append(("q%de" % qn, starts["early"], "q%dc" % qn, starts["cold"], count, ["queries before the workspace scan"]))
+    r.stats["query_before_scan_cases"] = nq
     ia, ma, sp = r.run_cases(cases)
     r.evaluations = len(ia)
     r.correspond(cases, ia, ma)
